@@ -283,6 +283,14 @@ def lsf_rules(repo, rep):
 
 
 def run(repo, rep):
+    # the grid computations ARE the ellipsoidal geodesic routines and the projection, wired together: the rules of the components the grid
+    # functions call (Vincenty inverse / direct formulas, the accepted band of the projection in both directions) are part of this property
+    from . import c04, c05, c01, c02
+    c05.run(repo, rep)
+    c04.run(repo, rep)
+    alg.reset()
+    c01.guard_rules(repo, rep)
+    c02.guard_rules(repo, rep)
     alg.reset()
     common.typecheck_rules(repo, rep)
     common.state_rule(repo, rep, [('geodepy.geodesy', 'vincdir_utm'), ('geodepy.geodesy', 'vincinv_utm'), ('geodepy.geodesy', 'line_sf')])
